@@ -12,3 +12,4 @@ import json,sys
 r=json.load(open('$f')); print('   kind=',r.get('kind'),'sig=',r.get('sig'),'|',str(r.get('what'))[:160]); print('   sigs=',sorted(set(v['sig'] for v in r.get('all_violations',[])))[:8]); print('   broken=',[b[0] for b in r.get('broken_obligations',[])][:6])"; fi
 done
 git -C /repo checkout -- .
+git -C /verif checkout -- evidence 2>/dev/null
